@@ -347,12 +347,13 @@ const (
 	opRemove
 	opCleanDir
 	opZipLimits // Zip with limits that apply: every entry that must be skipped is larger than the per-file limit
+	opZipInside // Zip whose destination lies inside the tree being archived (<root>/0ut3.arc, removed again afterwards)
 	nOps
 )
 
-var opNames = [...]string{"Walk", "Ls", "LsRecursive+dirs", "LsRecursive-dirs", "ListDirTree", "SubDirectories", "Copy", "CopyIntoExisting", "Zip", "Remove", "CleanDir", "ZipWithLimits"}
+var opNames = [...]string{"Walk", "Ls", "LsRecursive+dirs", "LsRecursive-dirs", "ListDirTree", "SubDirectories", "Copy", "CopyIntoExisting", "Zip", "Remove", "CleanDir", "ZipWithLimits", "ZipIntoTheTree"}
 
-var opVerb = [...]string{"reported", "reported", "reported", "reported", "reported", "reported", "copied", "copied", "archived", "deleted", "deleted", "archived"}
+var opVerb = [...]string{"reported", "reported", "reported", "reported", "reported", "reported", "copied", "copied", "archived", "deleted", "deleted", "archived", "archived"}
 
 func (o opID) destructive() bool { return o == opRemove || o == opCleanDir }
 
@@ -365,7 +366,7 @@ func opByName(s string) (opID, bool) {
 	return 0, false
 }
 
-var nonDestructive = []opID{opWalk, opLs, opLsRecDirs, opLsRecFiles, opListDirTree, opSubDirs, opCopy, opCopyInto, opZip, opZipLimits}
+var nonDestructive = []opID{opWalk, opLs, opLsRecDirs, opLsRecFiles, opListDirTree, opSubDirs, opCopy, opCopyInto, opZip, opZipLimits, opZipInside}
 var destructiveOps = []opID{opRemove, opCleanDir}
 var rootFileOps = []opID{opWalk, opCopy, opRemove} // operations that make sense when the root is a file
 
@@ -527,13 +528,30 @@ type opResult struct {
 	set     map[string]bool // relative paths reported / copied / archived; for Remove and CleanDir: what survives ("" = the root)
 	err     error
 	destArc bool // Zip: the destination file exists afterwards
+	// the pattern list was handed over as a slice with spare capacity: something in the caller's array changed
+	patsTouched string
 }
 
 // run executes one operation of the real code on the root of the world.
-func (w *world) run(op opID, pats []string) (res opResult) {
+func (w *world) run(op opID, callerPats []string) (res opResult) {
 	ctx := context.Background()
 	root := w.root()
 	res.set = map[string]bool{}
+	// the caller's list sits in an array with room to spare: the callee gets a slice of it and must leave the array alone
+	const spare = "\x00the caller's next pattern"
+	full := append(append(make([]string, 0, len(callerPats)+2), callerPats...), spare, spare)
+	pats := full[:len(callerPats):len(full)]
+	defer func() {
+		for i := range full {
+			want := spare
+			if i < len(callerPats) {
+				want = callerPats[i]
+			}
+			if full[i] != want && res.patsTouched == "" {
+				res.patsTouched = fmt.Sprintf("element %d of the caller's array (list of %d patterns, capacity %d) became %q", i, len(callerPats), len(full), full[i])
+			}
+		}
+	}()
 	addAbs := func(p string) {
 		p = filepath.ToSlash(p)
 		r := filepath.ToSlash(root)
@@ -594,10 +612,17 @@ func (w *world) run(op opID, pats []string) (res opResult) {
 				res.set[p] = true
 			}
 		}
-	case opZip, opZipLimits:
+	case opZip, opZipLimits, opZipInside:
 		dest := filepath.Join(w.base, "0ut.arc")
 		if op == opZipLimits {
 			dest = filepath.Join(w.base, "0ut2.arc") // not the archive the other zip operation of this world left
+		}
+		if op == opZipInside {
+			dest = filepath.Join(root, "0ut3.arc")
+			defer func() {
+				_ = w.fs.Rm(dest) // the tree is the other operations' too
+				delete(res.set, "0ut3.arc")
+			}()
 		}
 		limits := filesystem.NoLimits()
 		if op == opZipLimits {
@@ -774,7 +799,7 @@ func treeIntact(t tree, snap map[string]bool) bool {
 // judgeInvalid: the operation must fail with the kind "invalid", the tree must be intact, nothing transferred.
 func judgeInvalid(op opID, t tree, r opResult, rootAfter map[string]bool) []verdict {
 	touched := !treeIntact(t, rootAfter)
-	if !op.destructive() && len(r.set) > 0 && (op == opCopy || op == opCopyInto || op == opZip || op == opZipLimits) {
+	if !op.destructive() && len(r.set) > 0 && (op == opCopy || op == opCopyInto || op == opZip || op == opZipLimits || op == opZipInside) {
 		touched = true
 	}
 	yn := map[bool]string{true: "yes", false: "no"}
@@ -903,15 +928,19 @@ func runCase(backend, workerDir, mode string, t tree, pats []string, op opID) (o
 		return opResult{}, nil, err
 	}
 	r := w.run(op, pats)
+	var touched []verdict
+	if r.patsTouched != "" {
+		touched = []verdict{{core: fmt.Sprintf("op=%s:clause=callers-pattern-array-modified", opNames[op]), clause: "callers-pattern-array-modified", entry: r.patsTouched}}
+	}
 	if mode == "invalid" {
-		return r, judgeInvalid(op, t, r, w.snapshot(w.root())), nil
+		return r, append(judgeInvalid(op, t, r, w.snapshot(w.root())), touched...), nil
 	}
 	ps := newPset(pats)
 	vs := judgeValid(op, t, ps, classify(t, ps), r)
 	if !op.destructive() {
 		vs = append(vs, sourceVerdicts(op, t, classify(t, ps), w.snapshot(w.root()))...)
 	}
-	return r, vs, nil
+	return r, append(vs, touched...), nil
 }
 
 // sourceVerdicts: a non-destructive operation must not delete a protected entry of the source either.
@@ -1044,7 +1073,7 @@ func (ck *checker) pair(backend, workerDir string, g *group, t tree, ti, pi int,
 			st.invalidEvals++
 			st.nontrivial++ // every case of this group reaches the validation of the patterns
 			st.perOpNontriv[op]++
-			if (op == opZip || op == opZipLimits) && r.destArc {
+			if (op == opZip || op == opZipLimits || op == opZipInside) && r.destArc {
 				st.zipLeftArc++
 			}
 		}
@@ -1088,6 +1117,8 @@ func (ck *checker) pair(backend, workerDir string, g *group, t tree, ti, pi int,
 				continue
 			}
 			results[k], vs = r2, vs2
+		} else if results[k].patsTouched != "" {
+			vs = append(vs, verdict{core: fmt.Sprintf("op=%s:clause=callers-pattern-array-modified", opNames[op]), clause: "callers-pattern-array-modified", entry: results[k].patsTouched})
 		}
 		account(op, results[k], vs)
 	}
